@@ -28,7 +28,7 @@ theorem wf_asgS {s : State} (hw : WF s) {d x : Nat} (hc : check s (.asgS d x) = 
         simp only [hsame'] at hc
         by_cases hemp : emptyVar s x = true
         · simp only [hemp, if_true] at he hc ⊢
-          exact wf_deleteRepWithCheck hw (deleteCheck_none hc) he
+          exact wf_deleteRepWithCheck hw he
         · rw [if_neg hemp] at he ⊢
           cases hr : X.rep with
           | none => exact hw
@@ -59,7 +59,7 @@ theorem wf_masgS {s : State} (hw : WF s) {d x : Nat} (hc : check s (.masgS d x) 
         simp only [hsame'] at hc
         by_cases hemp : emptyVar s x = true
         · simp only [hemp, if_true] at he hc ⊢
-          exact wf_deleteRepWithCheck hw (deleteCheck_none hc) he
+          exact wf_deleteRepWithCheck hw he
         · rw [if_neg hemp] at he ⊢
           cases hr : X.rep with
           | none => exact hw
@@ -76,7 +76,7 @@ theorem wf_masgS {s : State} (hw : WF s) {d x : Nat} (hc : check s (.masgS d x) 
               intro w; rw [← hs0]; exact repOf_modSlot_blocked s d _ w
             have hreps0 : s0.reps = s.reps := by rw [← hs0]; exact reps_modSlot _ _ _
             have hnext0 : s0.nextRep = s.nextRep := by rw [← hs0]; exact nextRep_modSlot _ _ _
-            have hd0 : (s0.slots d).isSome = true := by rw [(ht d).2.2.2.2]; exact hd
+            have hd0 : (s0.slots d).isSome = true := by rw [(ht d).2.2.2]; exact hd
             have hR0 : s0.reps r = some R := by rw [hreps0]; exact hR
             by_cases hpar : hasParent s x = true
             · simp only [hpar, if_true] at he ⊢
@@ -119,7 +119,7 @@ theorem wf_clrS {s : State} (hw : WF s) {d : Nat} (hc : check s (.clrS d) = none
     · exact wf_modSlot_blocked hw d false
     · rename_i r hr
       simp only [hr] at he
-      exact wf_deleteRepWithCheck hw (deleteCheck_none hc) he
+      exact wf_deleteRepWithCheck hw he
 
 /-! ### connections, continued -/
 
